@@ -67,6 +67,7 @@ pub fn dump() {
     fx("LIQUIDATION_CLOSEOUT_DOLLAR_THRESHOLD", pc::LIQUIDATION_CLOSEOUT_DOLLAR_THRESHOLD);
     int("DRIFT_SCALED_BALANCE_DECIMALS", pc::DRIFT_SCALED_BALANCE_DECIMALS);
     int("ACCOUNT_TRANSFER_FEE", pc::ACCOUNT_TRANSFER_FEE);
+    int("DRIFT_MATH_ERROR", 6000 + drift_mocks::DriftMocksError::MathError as u32);
     {
         use tc::discriminators as d;
         bytes("DISC_GROUP", &d::GROUP);
